@@ -106,9 +106,10 @@ Print Assumptions C05_host_case_weight_repaired.
    empty route or host (the invariant); host in lower case, accepted by glob.Compile (as every host
    that add ever stored is, since c9fb527) and host ++ path splits back into
    (host, path); no route with two targets equal in service, URL, weight and tags ([twin_free]);
-   every target has positive effective weight ([live]); service, host ++ path, URL, tags, option
-   keys and values are non-empty strings over the SAFE BYTE CLASS [safe] (printable ASCII without
-   space, quote, backslash; tags also without comma, option keys without =); option keys in
+   service, host ++ path, URL, option keys
+   and values are strings over the SAFE BYTE CLASS [safe] (printable ASCII without space, quote,
+   backslash; option keys without =); tags ([tag_ok], since dfc4ae0) are non-empty strings of ANY
+   bytes except quote, comma and newline that TrimSpace leaves unchanged; option keys in
    ascending order; no negative weight; every positive weight is a fixed point of
    parse-after-print ([weight_text_stable]: pweight_dec (fmt4 w) = Ok w, i.e. w is on the
    4-decimal grid).
@@ -188,23 +189,53 @@ Theorem C05_render_parse_roundtrip_partial :
 Proof. exact render_parse_roundtrip_partial. Qed.
 Print Assumptions C05_render_parse_roundtrip_partial.
 
-(* ... and its failure outside the domain: zero-weight targets vanish (F-C05-2), tags with a
+(* ... and its failure outside the domain: (zero-weight targets, F-C05-2, were repaired by cb21db5) tags with a
    backslash come back escaped (F-C05-3), an empty URL text makes the rendering unparsable (F-C05-4). *)
+(* F-C05-2, REPAIRED in /repo by cb21db5: Route.config left out targets with effective weight 0;
+   about [render_skipping], the model of the old String() *)
 Theorem C05_zero_weight_dropped_refuted :
-  exists t t', nt_text (bs "route add svc-a foo.com/ http://10.0.0.1:80/ weight 1" ++ nl
-                        ++ bs "route add svc-b foo.com/ http://10.0.0.2:80/") = Ok t
+  exists t t', nt_text ex_zero_weight = Ok t
                /\ length (flat t) = 2%nat
-               /\ nt_text (render t) = Ok t' /\ length (flat t') = 1%nat.
+               /\ nt_text (render_skipping t) = Ok t' /\ length (flat t') = 1%nat.
 Proof. exact zero_weight_dropped_refuted. Qed.
 Print Assumptions C05_zero_weight_dropped_refuted.
 
+(* the same witness through String() as it is now: both targets, the table comes back unchanged *)
+Theorem C05_zero_weight_kept :
+  exists t, nt_text ex_zero_weight = Ok t /\ length (flat t) = 2%nat /\ nt_text (render t) = Ok t.
+Proof. exact zero_weight_kept. Qed.
+Print Assumptions C05_zero_weight_kept.
+
+(* F-C05-3a, REPAIRED in /repo by dfc4ae0: tags were printed with %q; about [render_unrepaired] *)
 Theorem C05_tag_escape_refuted :
   exists t t', nt_text (bs "route add svc foo.com/ http://10.0.0.1:80/ tags ""x\y""") = Ok t
                /\ map (fun x => t_tags (snd x)) (flat t) = [[bs "x\y"]]
-               /\ nt_text (render t) = Ok t'
+               /\ nt_text (render_unrepaired t) = Ok t'
                /\ map (fun x => t_tags (snd x)) (flat t') = [[bs "x\\y"]].
 Proof. exact tag_escape_refuted. Qed.
 Print Assumptions C05_tag_escape_refuted.
+
+(* the same witness through the renderer as it is now: the table comes back unchanged *)
+Theorem C05_tag_escape_repaired :
+  exists t, nt_text (bs "route add svc foo.com/ http://10.0.0.1:80/ tags ""x\y""") = Ok t
+            /\ map (fun x => t_tags (snd x)) (flat t) = [[bs "x\y"]]
+            /\ nt_text (render t) = Ok t.
+Proof. exact tag_escape_repaired. Qed.
+Print Assumptions C05_tag_escape_repaired.
+
+(* F-C05-3 (open), the remaining case: a single empty tag comes back as no tags *)
+Theorem C05_empty_tag_refuted :
+  exists t t', nt_text (bs "route add svc foo.com/ http://10.0.0.1:80/ tags "" """) = Ok t
+               /\ map (fun x => t_tags (snd x)) (flat t) = [[[]]]
+               /\ nt_text (render t) = Ok t'
+               /\ map (fun x => t_tags (snd x)) (flat t') = [[]].
+Proof. exact empty_tag_refuted. Qed.
+Print Assumptions C05_empty_tag_refuted.
+
+(* the round trip's tag domain: any byte but quote, comma, newline; non-empty; TrimSpace-stable *)
+Theorem C05_tag_domain_wide : tag_ok (bs "x\y") = true /\ tag_ok [1; 92; 200] = true /\ tag_ok (bs "a b") = true.
+Proof. exact tag_domain_wide. Qed.
+Print Assumptions C05_tag_domain_wide.
 
 Theorem C05_empty_url_refuted :
   let canon := fun d => if beq d (bs "#") then Some [] else Some d in
@@ -226,6 +257,30 @@ Theorem C05_new_table_inv : forall pweight canon glob_ok text t,
   new_table pweight canon glob_ok text = Ok t -> exists t0, inv t0 /\ t = sort_table t0.
 Proof. exact new_table_inv. Qed.
 Print Assumptions C05_new_table_inv.
+
+(* The route order NewTable returns (Routes.Less since /repo c1f03c0): descending in
+   (lower-cased path, then raw path).  The model sorts by one key per path; the key order is that
+   two-level order, a strict total order on paths, and every host's routes come out sorted. *)
+Theorem C05_path_key_cmp : forall p q,
+  str_cmp (path_key p) (path_key q)
+  = match str_cmp (lower p) (lower q) with Eq => str_cmp p q | c => c end.
+Proof. exact path_key_cmp. Qed.
+Print Assumptions C05_path_key_cmp.
+
+Theorem C05_path_key_eq : forall p q, str_cmp (path_key p) (path_key q) = Eq <-> p = q.
+Proof. exact path_key_eq. Qed.
+Print Assumptions C05_path_key_eq.
+
+Theorem C05_path_key_trans : forall p q r,
+  str_ltb (path_key p) (path_key q) = true -> str_ltb (path_key q) (path_key r) = true ->
+  str_ltb (path_key p) (path_key r) = true.
+Proof. exact path_key_trans. Qed.
+Print Assumptions C05_path_key_trans.
+
+Theorem C05_new_table_sorted : forall pweight canon glob_ok text t,
+  new_table pweight canon glob_ok text = Ok t -> Forall (fun hr => desc_sorted (snd hr)) t.
+Proof. exact new_table_sorted. Qed.
+Print Assumptions C05_new_table_sorted.
 
 (* non-vacuity: a real script reaches a table (hence [inv]) on which a weight command and a del
    command, both naming the host in mixed case, matched *)
